@@ -148,6 +148,7 @@ type Txn struct {
 	implicit  bool      // autocommit statement
 	touched   []touch   // rows whose xmin/xmax/lockers reference this txn
 	advLocks  []int64   // transaction-scoped advisory locks
+	advShLocks []int64  // transaction-scoped shared advisory locks (advshared.go)
 	tsSet     bool
 	ts        time.Time // transaction_timestamp / now()
 	txDate    *time.Time
@@ -258,6 +259,7 @@ type DB struct {
 	Fault func(sess int, worker string, n int64, kind string, sql string) error
 
 	advisory map[int64]*advLock
+	advShared map[int64]map[*Session]*advShare // shared-mode holders (advshared.go)
 	waiting  map[string]*waitErr // worker -> what its parked statement waits for
 	notes    []string // ORDER-DEPENDENT and similar diagnostics
 	skipped  []string // legacy migration statements skipped under the empty-tables rule
@@ -519,6 +521,7 @@ func (s *Session) Close() {
 		}
 	}
 	s.advSession = map[int64]int{}
+	db.releaseSharedSession(s)
 	s.closed = true
 	delete(db.sessions, s.id)
 	db.cond.Broadcast()
@@ -612,6 +615,7 @@ func (db *DB) endTxn(t *Txn, commit bool) {
 			}
 		}
 	}
+	db.releaseSharedXact(t)
 	t.sess.txn = nil
 	t.sess.waitingOn = nil
 	if commit && db.OnCommit != nil && !t.implicitReadOnly() {
@@ -620,7 +624,9 @@ func (db *DB) endTxn(t *Txn, commit bool) {
 	db.cond.Broadcast()
 }
 
-func (t *Txn) implicitReadOnly() bool { return len(t.touched) == 0 && len(t.advLocks) == 0 }
+func (t *Txn) implicitReadOnly() bool {
+	return len(t.touched) == 0 && len(t.advLocks) == 0 && len(t.advShLocks) == 0
+}
 
 func (db *DB) vacuum(tb *Table) {
 	keep := tb.Rows[:0]
@@ -743,6 +749,9 @@ func (db *DB) advisoryLock(s *Session, key int64, xactScoped bool) error {
 		} else {
 			return &waitErr{on: l.sess, what: fmt.Sprintf("advisory lock %d", key)}
 		}
+	}
+	if h := db.otherSharedHolder(s, key); h != nil {
+		return &waitErr{on: h, what: fmt.Sprintf("advisory lock %d", key)}
 	}
 	if l == nil {
 		l = &advLock{sess: s}
